@@ -113,13 +113,24 @@ type vf46Rd struct {
 	pendingBody int         // outstanding bytes of a body that was requested as a whole
 	lostFraming bool        // the consumer asked for a size field while a body was outstanding
 	valve       int
+
+	// source failure: after failAt delivered bytes every call fails with a sticky non-EOF error
+	failOn bool
+	failAt int
+	faults int
 }
+
+var errVf46Transport = errors.New("vf46 reader: connection reset by peer (injected source failure)")
 
 var errVf46Valve = errors.New("vf46 reader: consumer lost the record framing, stream aborted to protect the machine")
 
 func (r *vf46Rd) Read(p []byte) (int, error) {
 	if len(p) == 0 {
 		return 0, nil
+	}
+	if r.failOn && r.pos >= r.failAt {
+		r.faults++
+		return 0, errVf46Transport
 	}
 	rest := len(r.data) - r.pos
 	if rest == 0 {
@@ -160,6 +171,9 @@ func (r *vf46Rd) Read(p []byte) (int, error) {
 		n = 1 + r.rng.IntN(1+r.rng.IntN(5000))
 	}
 	n = min(n, len(p), rest)
+	if r.failOn {
+		n = min(n, r.failAt-r.pos)
+	}
 	if n < len(p) && n < rest {
 		r.shorts++
 	}
@@ -174,7 +188,7 @@ func (r *vf46Rd) Read(p []byte) (int, error) {
 func TestVerif_C46Engine(t *testing.T) {
 	r := verifkit.Start(t, "C46", "exploration")
 	defer r.Finish()
-	r.SetRule("case = engine with 1..3 shards holding 1..10 objects (payload 0..70 KiB, small so a lost framing reads small sizes) -> DumpShard of every shard -> RestoreShard into shards of a fresh engine through reader mode {full, short, onebyte, halves, dataerr}, optionally one undecodable record with ignoreErrors on/off; distinct = (reader, #src shards, #dst shards, ignoreErrors, corrupted)")
+	r.SetRule("case = engine with 1..3 shards holding 1..10 objects (payload 0..70 KiB, small so a lost framing reads small sizes) -> DumpShard of every shard -> RestoreShard into shards of a fresh engine through reader mode {full, short, onebyte, halves, dataerr}, optionally one undecodable record with ignoreErrors on/off -> the first non-empty stream once more into a fresh engine from a source that fails with a sticky non-EOF error at a record boundary / inside a body / inside a size prefix (rotating with the case index); distinct = (reader, #src shards, #dst shards, ignoreErrors, corrupted)")
 	nCases := r.Pick(25, 250)
 	base := os.Getenv("VERIF_SCRATCH")
 	if base == "" {
@@ -344,6 +358,90 @@ func TestVerif_C46Engine(t *testing.T) {
 			return "", shorts
 		}
 
+		restoreFailing := func(sub, rmode string) string {
+			si := -1
+			for i, recs := range allRecs {
+				if len(recs) > 0 {
+					si = i
+					break
+				}
+			}
+			if si < 0 {
+				return ""
+			}
+			recs, st := allRecs[si], streams[si]
+			frng := r.Rand("fault", ci)
+			bounds := []int{4}
+			for _, rc := range recs {
+				bounds = append(bounds, bounds[len(bounds)-1]+4+len(rc.body))
+			}
+			done := frng.IntN(len(recs))
+			kind, off := "record-boundary", bounds[done]
+			switch (ci / len(modes)) % 3 {
+			case 1:
+				kind, off = "record-body", bounds[done]+4+frng.IntN(len(recs[done].body))
+			case 2:
+				if frng.IntN(2) == 0 {
+					kind, off = "size-prefix", bounds[done]+1+frng.IntN(3)
+				}
+			}
+			desc["source_failure_at"], desc["source_failure_offset"] = kind, off
+			dst, dstIDs, err := vf46NewEngine(filepath.Join(dir, sub), nDst)
+			if err != nil {
+				return "harness:" + err.Error()
+			}
+			defer func() { _ = dst.Close() }()
+			rd := &vf46Rd{data: st, mode: rmode, rng: r.Rand("fault-reader", ci), bodies: vf46Bodies(st), failOn: true, failAt: off}
+			var rerr error
+			if r.Guard(desc, func() { rerr = dst.RestoreShard(dstIDs[0], rd, ignore) }) {
+				return "panic"
+			}
+			r.Count("engine_source_failure_restores", 1)
+			if rd.faults > 0 {
+				r.Seen("engine_source_failures_delivered_at", kind)
+				if kind == "record-boundary" {
+					r.Count("engine_source_failures_at_record_boundary_with_records_left", 1)
+				}
+			}
+			streamBad := 0
+			valid := map[oid.Address][]byte{}
+			for _, rc := range recs {
+				if rc.valid {
+					valid[rc.addr] = rc.body
+				} else {
+					streamBad++
+				}
+			}
+			if rerr != nil && rd.faults == 0 && (streamBad == 0 || ignore) {
+				return fmt.Sprintf("error-on-restorable-stream: RestoreShard returned %q before the source failed", rerr)
+			}
+			if rerr == nil && streamBad > 0 && !ignore {
+				return "corruption-not-reported: RestoreShard returned nil for a stream with an undecodable record"
+			}
+			for a, body := range valid {
+				o, err := dst.Get(ctx, a)
+				if err != nil {
+					if rerr == nil {
+						return fmt.Sprintf("source-failure-reported-as-success|at=%s: source delivered %d of %d stream bytes (%d of %d records complete) and then failed with a non-EOF error, RestoreShard returned nil but %s is missing: %v", kind, off, len(st), done, len(recs), a, err)
+					}
+					continue
+				}
+				if !bytes.Equal(o.Marshal(), body) {
+					return fmt.Sprintf("bytes-differ|source-failure-at=%s: %s", kind, a)
+				}
+			}
+			lst, err := dst.shards[dstIDs[0].String()].List()
+			if err != nil {
+				return "harness:list:" + err.Error()
+			}
+			for _, a := range lst {
+				if _, ok := valid[a]; !ok {
+					return fmt.Sprintf("foreign-object|source-failure-at=%s: %s", kind, a)
+				}
+			}
+			return ""
+		}
+
 		res, shorts := restoreAll("dst", rmode)
 		r.Count("engine_restores", 1)
 		r.Count("engine_reader_short_returns", shorts)
@@ -353,6 +451,16 @@ func TestVerif_C46Engine(t *testing.T) {
 		switch {
 		case res == "":
 			r.Count("engine_cases_agree", 1)
+			// The same streams once more into a fresh engine, the first non-empty one from a
+			// source that breaks with a sticky non-EOF error (see the shard leg).  An error return
+			// is accepted; a nil return claims the dump was restored and is held to it.
+			if fres := restoreFailing("flt", rmode); fres != "" {
+				if len(fres) > 8 && fres[:8] == "harness:" {
+					r.Inconclusive(fmt.Sprintf("case %d (failing source): %s", ci, fres))
+				} else {
+					r.Violation("engine-restore|"+vf46Sym(fres), "via StorageEngine.RestoreShard: "+fres, desc)
+				}
+			}
 		case len(res) > 8 && res[:8] == "harness:":
 			r.Inconclusive(fmt.Sprintf("case %d: %s", ci, res))
 		case rmode == "full":
@@ -366,6 +474,9 @@ func TestVerif_C46Engine(t *testing.T) {
 			}
 		}
 		_ = os.RemoveAll(dir)
+	}
+	if r.Counter("engine_source_failures_at_record_boundary_with_records_left") == 0 {
+		r.Inconclusive("no engine restore ever met a source that failed between two records of the dump")
 	}
 }
 
